@@ -343,14 +343,15 @@ pub fn finish(ctx: &Ctx, report: Report) -> i32 {
         ctx.elapsed()
     );
     if ctx.replay.is_some() { println!("extra: {}", serde_json::to_string(&report.extra).unwrap().chars().take(1500).collect::<String>()); }
-    if !report.machinery_errors.is_empty() {
-        for e in &report.machinery_errors {
-            eprintln!("MACHINERY-ERROR {}: {}", ctx.id, e);
-        }
-        return 2;
+    for e in &report.machinery_errors {
+        eprintln!("MACHINERY-ERROR {}: {}", ctx.id, e);
     }
+    // a violation that was exhibited stands whatever else went wrong in the run; a run with machinery errors and no
+    // violation is not a verdict (exit 2)
     if new_violations > 0 {
         1
+    } else if !report.machinery_errors.is_empty() {
+        2
     } else {
         0
     }
